@@ -72,6 +72,11 @@ def _classes():
         rows = list(zip(ana["conNames"], ana["conCoef"]))
         corder = getattr(var, "con_order", None) or list(range(len(rows)))
         den = float(ana["coefDen"])
+        # the network has a history: a constraint registered first and removed again once the others are in place (the
+        # rows of the remaining ones move up; what is asked for by name is still that constraint's current)
+        scaffold = var.rng.random() < 0.5
+        if scaffold:
+            net.add_constraint(Current([ar.sid(1)]), 5.0, name="scaffold")
         for n in corder:
             name, coef = rows[n]
             loads = {}
@@ -80,6 +85,8 @@ def _classes():
                 if c != 0 or var.rng.random() < 0.3:       # an explicit 0 coefficient is the same row
                     loads[ar.sid(s)] = c / den
             net.add_constraint(Current(loads), 1000.0, name=name)
+        if scaffold:
+            net.remove_constraint("scaffold")
         return net
 
     class AnalysisReplay(ar.Replay):
@@ -191,7 +198,18 @@ def compare_analysis(sim, ana, stats=None):
             bad = None
             mags = {}
             for nm in ans:
-                a = np.abs(np.asarray(out[nm]))            # magnitudes, whatever the polarity of the flag
+                z = np.asarray(out[nm])
+                if np.iscomplexobj(z) and z.ndim == 1 and z.shape[0] == t:
+                    # the phasor itself, where the function hands it out: sum_s coef[s] * rate[s, k] * e^{j phase[s]}
+                    # (rates as recorded; the rotation matters also when every station sits on the same phase)
+                    row = ana["conCoef"][ana["conNames"].index(nm)]
+                    for k in range(t):
+                        want = sum(row[s - 1] / float(ana["coefDen"]) * float(sim.charging_rates[sim.network.station_ids.index(
+                            "ST-%d" % s), k]) * np.exp(1j * np.deg2rad(ana["phase"][s - 1])) for s in range(1, len(row) + 1))
+                        if abs(z[k] - want) > 1e-9 * max(1.0, abs(want)) and bad is None:
+                            bad = _mm("constraint_currents", "phasor", [want.real, want.imag], [z[k].real, z[k].imag],
+                                      what=what, name=nm, period=k)
+                a = np.abs(z)            # magnitudes, whatever the polarity of the flag
                 if a.ndim != 1 or a.shape[0] != t:
                     return _mm("constraint_currents", "length", t, list(a.shape), what=what, name=nm)
                 mags[nm] = a
@@ -483,13 +501,18 @@ def check_C18(tier, seed, _n=None, _procs=None):
     n = _n or (600 if quick else 20000)
     procs = _procs or (4 if quick else 12)
     workers = int(os.environ.get("VERIF_TLC_WORKERS", "0")) or None
-    with ThreadPoolExecutor(max_workers=3) as ex:
+    with ThreadPoolExecutor(max_workers=4) as ex:
         f_mc = ex.submit(run_tlc, MODULE, cfg, coverage=quick, timeout=3000, workers=workers)
         f_tiny = ex.submit(gen_behaviours, "Analysis_gen_tiny", {}, 0, 0, seed, module=MODULE, exhaustive=True)
         f_gen = ex.submit(gen_behaviours, "Analysis_gen", {}, n, 100, seed, procs=procs, module=MODULE)
         mc = f_mc.result()
+        f_uni = ex.submit(gen_behaviours, "Analysis_gen", {"Phase": "<- Phase6U"}, max(100, n // 6), 100, seed + 7, procs=1,
+                          module=MODULE)
         tiny, st = f_tiny.result()
         bhvs, stats = f_gen.result()
+        uni, st_uni = f_uni.result()
+        bhvs = bhvs + uni
+        stats = stats + st_uni
     rep.add_tlc(mc, "exhaustive model checking of the analysis theorems: " + THEOREMS, cfg, require_actions=ACTIONS)
     require_ok(mc, "Analysis model checking")
     cfgdir = os.path.join(os.path.dirname(__file__), "..", "spec", "cfg")
